@@ -264,7 +264,7 @@ def both_check(case):
 
 
 # ------------------------------------------------------------------ mute gain on every flag pattern
-WIDTHS = [1, 3, 5, 7, 9, 11, 31, 2, 4, 8]
+WIDTHS = [1, 3, 5, 7, 9, 11, 31, 2, 4, 8, 0]
 
 
 def mute_cases(tier, seed):
